@@ -108,7 +108,12 @@ class WorldScenario:
         for t in w.model.targets.values():
             for o in t.outputs:
                 if r.chance(self.profile.get("p_init_outputs", 0.55)):
-                    ops.append({"op": "set_file", "f": o, "age": r.pick(ages)})
+                    op = {"op": "set_file", "f": o, "age": r.pick(ages)}
+                    if r.chance(self.profile.get("p_epoch_zero", 0.0)):
+                        op["epoch_zero"] = True  # a file dated 1970-01-01 00:00:00 (extracted archive, reset clock)
+                    ops.append(op)
+                    if self.profile.get("p_link_output") and r.chance(self.profile["p_link_output"]):
+                        ops.append({"op": "link_output", "f": o})
         return ops
 
     def _propose(self, w, r):
@@ -128,6 +133,7 @@ class WorldScenario:
         add("run", {"op": "gwf", "argv": ["run"] + self._patterns(w, r), "cwd": cwd})
         add("dry_run", {"op": "gwf", "argv": ["run", "--dry-run"] + self._patterns(w, r), "cwd": cwd})
         add("triple", {"op": "triple", "patterns": self._patterns(w, r), "cwd": cwd})
+        add("gwf_cancel", {"op": "gwf", "argv": ["cancel", "-f"] + self._patterns(w, r), "cwd": cwd})
         if w.cluster is not None:
             cl = w.cluster
             ours = [j for j in cl.jobs.values() if not j.foreign]
@@ -176,7 +182,10 @@ class WorldScenario:
         if files_out:
             add("delete_output", {"op": "delete_output", "f": r.pick(files_out)})
             add("touch_file", {"op": "touch_file", "f": r.pick(files_out + w.model.sources)})
-            add("set_file", {"op": "set_file", "f": r.pick(files_out + w.model.sources), "age": r.pick([0, 1, 2, 3])})
+            sf = {"op": "set_file", "f": r.pick(files_out + w.model.sources), "age": r.pick([0, 1, 2, 3])}
+            if r.chance(pf.get("p_epoch_zero", 0.0)):
+                sf["epoch_zero"] = True
+            add("set_file", sf)
         if w.model.targets:
             add("edit_spec", {"op": "edit_spec", "t": r.pick(list(w.model.targets))})
         add("advance", {"op": "advance", "dt": r.pick([1, 1, 2, 5]) * self.knobs["granularity"]})
@@ -267,7 +276,22 @@ class WorldScenario:
                     f.write(b"initial\n")
             g = self.knobs["granularity"]
             t0 = (1_000_000.0 // g) * g
-            w.fs.world_touch_at(p, t0 - op["age"] * g)
+            w.fs.world_touch_at(p, 0.0 if op.get("epoch_zero") else t0 - op["age"] * g)
+            if op.get("epoch_zero"):
+                w.probe("epoch_zero_files")
+        elif kind == "link_output":
+            # the declared output becomes a symbolic link to a data file that belongs to nobody
+            p = w.path(op["f"])
+            os.makedirs(w.path("shared"), exist_ok=True)
+            dst = w.path("shared/data_" + op["f"].replace("/", "_"))
+            if not os.path.islink(p):
+                with fsx._real_open(dst, "wb") as f:
+                    f.write(b"precious shared data\n")
+                w.fs.world_touch_at(dst, 1_000_000.0 - 8.0)
+                if os.path.exists(p):
+                    fsx._real_remove(p)
+                os.symlink(dst, p)
+                w.probe("symlinked_outputs")
         elif kind == "edit_spec":
             t = w.model.targets.get(op["t"])
             if t is not None:
@@ -335,21 +359,23 @@ class WorldScenario:
         """Scheduler transitions between the seam events of a running `gwf run` (a job may start or
         finish while gwf is still submitting).  Generated once, recorded in the op, replayed verbatim."""
         p = self.profile.get("interleave", 0)
-        if not p or w.cluster is None:
+        if not p:
             return
+        if w.cluster is None:
+            return self._install_interleave_local(w, op, p)
         if self.replaying or "interleave" in op:
             plan = {}
             for k, t in op.get("interleave", []):
                 plan.setdefault(k, []).append(t)
 
-            def hook(kind):
+            def hook(kind, detail=None):
                 for t in plan.get(w.seam_count, []):
                     self._transition(w, t)
         else:
             r = self.rng.fork(("interleave", len(self.ops)))
             op["interleave"] = []
 
-            def hook(kind):
+            def hook(kind, detail=None):
                 # only once gwf has read the queue (all queries precede the first submission): a
                 # transition before that legitimately changes what gwf sees and hence the plan
                 if kind not in ("cmd:sbatch", "cmd:qsub", "cmd:bsub"):
@@ -370,6 +396,36 @@ class WorldScenario:
                     t = r.pick(cands)
                     op["interleave"].append([w.seam_count, t])
                     self._transition(w, t)
+                    w.probe("transitions_inside_gwf_run")
+
+        w.between_seams = hook
+
+    def _install_interleave_local(self, w, op, p):
+        """Local pool: a job may finish (or fail) between two enqueue_task requests of one gwf run."""
+        if self.replaying or "interleave" in op:
+            plan = {}
+            for k, t in op.get("interleave", []):
+                plan.setdefault(k, []).append(t)
+
+            def hook(kind, detail=None):
+                for t in plan.get(w.seam_count, []):
+                    self.apply(w, dict(t))
+        else:
+            r = self.rng.fork(("interleave", len(self.ops)))
+            op["interleave"] = []
+
+            def hook(kind, detail=None):
+                # only once gwf has read the task states: between two enqueue_task requests
+                if kind != "sock:send" or "enqueue_task" not in (detail or ""):
+                    return
+                while r.chance(p):
+                    run = sorted(w.local.running_jobs(), key=lambda jb: jb["tid"])
+                    if not run:
+                        return
+                    t = {"op": "finish", "id": r.pick(run)["tid"],
+                         "how": "ok" if r.chance(self.profile.get("p_job_ok", 0.6)) else "failed"}
+                    op["interleave"].append([w.seam_count, t])
+                    self.apply(w, dict(t))
                     w.probe("transitions_inside_gwf_run")
 
         w.between_seams = hook
